@@ -2,7 +2,10 @@
 import os, shutil, subprocess
 from . import common as C
 
-PIECES = ["..", ".", "", "a", "dir", "sub dir", "C:", "con", "x" * 180, "ünï", "...", "..a", "a..", "file.txt", "DATA", "e.bin"]
+PIECES = ["..", ".", "", "a", "dir", "sub dir", "C:", "con", "x" * 180, "ünï", "...", "..a", "a..", "file.txt", "DATA", "e.bin",
+          # shapes that become '..' / '.' under a normalisation applied after a check (trim, dot-trim, decode, width folding)
+          ".. ", " ..", "..  ", "..\t", ". ", " .", "....", "%2e%2e", "..%2f", "..;", "\uff0e\uff0e", "\u2025", "..\u00a0"]
+UPWARD = ["..", ".. ", " ..", "..\t", "...", "%2e%2e", "\uff0e\uff0e", "..  "]
 
 
 def gen_name(r, esc_abs):
@@ -10,9 +13,10 @@ def gen_name(r, esc_abs):
     n = r.randrange(1, 6)
     comps = [r.choice(PIECES) for _ in range(n)]
     if k == 0:
-        comps = [".."] * r.randrange(1, 6) + ["escaped%d.txt" % r.randrange(1000)]
+        comps = [r.choice(UPWARD) for _ in range(r.randrange(1, 6))] + ["escaped%d.txt" % r.randrange(1000)]
     elif k == 1:
-        comps = ["dir", "..", "..", "..", "up%d.txt" % r.randrange(1000)]
+        u = r.choice(UPWARD)
+        comps = [r.choice(["dir", "textures", "a"])] + [u] * r.randrange(2, 5) + ["up%d.txt" % r.randrange(1000)]
     elif k == 2:
         comps = [""] + esc_abs.strip("/").split("/") + ["abs%d.txt" % r.randrange(1000)]      # absolute path
     elif k == 3:
@@ -57,7 +61,7 @@ def run(tier, seed, replay=None):
     base = os.path.join(C.CACHE, "c11")
     shutil.rmtree(base, ignore_errors=True)
     os.makedirs(base)
-    ncases = 240 if big else 48
+    ncases = 480 if big else 96
     esc_root = os.path.join(base, "ABSOLUTE_ESCAPE")
     mism = 0
     for i in range(ncases):
